@@ -514,7 +514,39 @@ class B(object):
             return [line]
         return [ind + self.call_expr(ctx, 0, ())]
 
+    def s_deepchain(self, ctx, ind):
+        """a read many single-predecessor regions deep (nested ifs, or the last arm of a long if / elif chain inside an else), the
+        name bound at the two outermost levels: the nearer binding is the one that is read"""
+        self.features.add('deep-region-chain')
+        v = self.name()
+        cond = self._read(ctx, (v,))
+        n = self.draw(st.integers(11, 17))
+        lines = [ind + '%s = %s' % (v, self.expr(ctx, 1, (v,)))]
+        self.bind(ctx, [v])
+        if self.chance(50):
+            lines.append(ind + 'if %s:' % cond)
+            lines.append(ind + '    %s = use(%s)' % (v, cond))
+            cur = ind + '    '
+            for i in range(n):
+                lines.append(cur + 'if %s:' % cond)
+                cur += '    '
+            lines.append(cur + 'use(%s)' % v)
+        else:
+            lines.append(ind + 'if %s:' % cond)
+            lines.append(ind + '    pass')
+            lines.append(ind + 'else:')
+            lines.append(ind + '    %s = use(%s)' % (v, cond))
+            lines.append(ind + '    if use(0):')
+            lines.append(ind + '        pass')
+            for i in range(n):
+                lines.append(ind + '    elif use(%d):' % (i + 1))
+                lines.append(ind + '        ' + ('pass' if i < n - 1 else 'use(%s)' % v))
+        return lines
+
     def s_if(self, ctx, ind, depth):
+        if depth == 0 and not ctx.get('in_class_direct') and self.chance(6) and self.room():
+            self.dec(2)
+            return self.s_deepchain(ctx, ind)
         self.dec()
         self.features.add('if')
         c2 = dict(ctx, in_block=True)
